@@ -40,12 +40,14 @@ func (p ArrayPattern) Bind(ctx context.Context, local Scope, value Value) (conte
 	length := len(array.Values())
 
 	extraElements := make(map[int]int)
+	hasRest := false
 	for i, item := range p.items {
 		if _, is := item.pattern.(ExtraElementPattern); is {
 			if len(extraElements) == 1 {
 				return ctx, EmptyScope, fmt.Errorf("non-deterministic pattern is not supported yet")
 			}
 			extraElements[i] = length - len(p.items)
+			hasRest = true
 		}
 		if item.fallback != nil {
 			if len(extraElements) == 1 {
@@ -59,7 +61,8 @@ func (p ArrayPattern) Bind(ctx context.Context, local Scope, value Value) (conte
 		return ctx, EmptyScope, fmt.Errorf("length of array %s shorter than array pattern %s", array, p)
 	}
 
-	if len(extraElements) == 0 && len(p.items) < length {
+	// Only `...` can absorb additional items; a fallback merely allows one item to be absent.
+	if !hasRest && len(p.items) < length {
 		return ctx, EmptyScope, fmt.Errorf("length of array %s longer than array pattern %s", array, p)
 	}
 
